@@ -37,6 +37,7 @@
 #include <netinet/in.h>
 #include <arpa/inet.h>
 #include <errno.h>
+#include <stdio.h> /* snprintf */
 #include <string.h> /* memcpy, memmove, memset, strerror... */
 
 #include "utils/macro.h"
@@ -511,6 +512,8 @@ int
 sa_addr_to_str(const sockaddr_storage_t *addr, char *buf,
     size_t buf_size, size_t *buf_size_ret) {
 	void *sin_addr;
+	const uint8_t *a8;
+	int rc;
 	size_t size_ret = 0;
 
 	if (NULL == addr || NULL == buf || 0 == buf_size)
@@ -527,21 +530,14 @@ sa_addr_to_str(const sockaddr_storage_t *addr, char *buf,
 		memcpy(buf, sin_addr, MIN(size_ret, (buf_size - 1)));
 		buf[MIN(size_ret, (buf_size - 1))] = 0;
 		break;
-	case AF_INET:
 	case AF_INET6:
-		if (NULL == inet_ntop(addr->ss_family, sin_addr, buf,
-		    (socklen_t)MIN(buf_size, INET6_ADDRSTRLEN))) /* Size include terminating zero; socklen_t is 32 bit. */
-			return (errno);
-		buf[(buf_size - 1)] = 0; /* Should be not nessesary. */
-		size_ret = strnlen(buf, buf_size);
 		/* RFC 5952: mixed notation only for well known prefixes, inet_ntop()
-		 * use it for (deprecated) IPv4-compatible ::/96: "::0.1.0.128" -> "::1:80". */
-		if (AF_INET6 == addr->ss_family &&
-		    NULL != memchr(buf, '.', size_ret) &&
-		    0 == memcmp(sin_addr, "\0\0\0\0\0\0\0\0\0\0\0\0", 12)) {
-			const uint8_t *a8 = ((const uint8_t*)sin_addr);
-			int rc;
-
+		 * use it for (deprecated) IPv4-compatible ::/96: "::0.1.0.128",
+		 * not "::1:80". Format it here: the longer inet_ntop() text
+		 * may not fit in buf that is enough for result. */
+		a8 = ((const uint8_t*)sin_addr);
+		if (0 == memcmp(a8, "\0\0\0\0\0\0\0\0\0\0\0\0", 12) &&
+		    (0 != a8[12] || 0 != a8[13] || 0 != a8[14] || 1 < a8[15])) { /* Not "::", "::1". */
 			if (0 != a8[12] || 0 != a8[13]) {
 				rc = snprintf(buf, buf_size, "::%x:%x",
 				    ((((unsigned)a8[12]) << 8) | a8[13]),
@@ -552,8 +548,16 @@ sa_addr_to_str(const sockaddr_storage_t *addr, char *buf,
 			}
 			if (0 > rc)
 				return (EINVAL);
-			size_ret = (size_t)rc;
+			size_ret = (size_t)rc; /* Full len, buf is zero terminated. */
+			break;
 		}
+		/* Passtrouth. */
+	case AF_INET:
+		if (NULL == inet_ntop(addr->ss_family, sin_addr, buf,
+		    (socklen_t)MIN(buf_size, INET6_ADDRSTRLEN))) /* Size include terminating zero; socklen_t is 32 bit. */
+			return (errno);
+		buf[(buf_size - 1)] = 0; /* Should be not nessesary. */
+		size_ret = strnlen(buf, buf_size);
 		break;
 	default:
 		return (EAFNOSUPPORT);
